@@ -297,6 +297,15 @@ func (p *C12) Generate(seed uint64, run int) *Case {
 			st.Files["/sim/out/.keep"] = &simrt.FileSpec{Data: []byte{}}
 		})
 	}
+	if r.Chance(1, 3) {
+		// the -o target exists and BEGINS with what the command is about to write
+		// (an earlier, longer result of the same command); filled in by Evaluate
+		add("outpath:existing-prefix", func(st *Step) {
+			st.Argv = append(st.Argv, "-o", outPath)
+			st.Files = cloneFiles(st.Files)
+			st.Files[outPath] = &simrt.FileSpec{Data: []byte("- name: Tail\n  degree: \"1\"\nTrack 9\t@0(0)\tMetaText text: tail\n" + strings.Repeat("tail of the earlier result\n", 1+r.Intn(200)))}
+		})
+	}
 	add("outpath", func(st *Step) {
 		st.Argv = append(st.Argv, "-o", outPath)
 		if r.Chance(1, 2) {
@@ -558,6 +567,14 @@ func (p *C12) Evaluate(env *Env, c *Case) (*Outcome, error) {
 					}
 				}
 				st.Files = files
+			}
+			if st.Note == "outpath:existing-prefix" && out.Results[0] != nil && out.Results[0].OK() {
+				if f := st.Files[outPath]; f != nil {
+					cp := *f
+					cp.Data = append(append([]byte{}, out.Results[0].Stdout...), f.Data...)
+					st.Files = cloneFiles(st.Files)
+					st.Files[outPath] = &cp
+				}
 			}
 			r, err := env.Exec(&st)
 			if err != nil {
